@@ -556,6 +556,9 @@ def run_dp(case):
                     else:
                         meter = None
                     data = cls.from_series(meter, fr["temperature"], is_electricity_data=case["electric"])
+                elif case.get("ctor") == "series":
+                    data = cls.from_series(fr["observed"] if case["with_obs"] else None, fr["temperature"],
+                                           is_electricity_data=case["electric"])
                 else:
                     data = cls(fr, is_electricity_data=case["electric"])
         except Exception as e:   # noqa
@@ -563,6 +566,10 @@ def run_dp(case):
         df = data.df
         has_obs = "observed" in df.columns
         res = {"has_obs": has_obs, "n_in": len(df), "keys": list(model.params.submodels.keys()), "input_used": inp}
+        # local calendar days (tz database) for which a temperature was supplied / that are rows of the data object's frame
+        tnn = fr["temperature"].notna().to_numpy()
+        res["supplied_days"] = sorted({cz.local_fields(t, z)[0] for t, ok in zip(idx_minutes(fr.index), tnn) if ok})
+        res["frame_days"] = [cz.local_fields(t, z)[0] for t in idx_minutes(df.index)]
         try:
             with contextlib.redirect_stdout(io.StringIO()):
                 out = model.predict(data)
@@ -751,6 +758,49 @@ def gen_dp_cases(rng, zones_trans, n):
     return cases
 
 
+UTC0_DST_ZONES = ["Europe/London", "Europe/Lisbon", "Atlantic/Canary", "Europe/Dublin", "Atlantic/Faroe", "Africa/Casablanca"]
+
+
+def gen_dp_edge_cases(rng, n):
+    """daily data classes around both clock changes of a year, with temperature-only days (no meter value) on the change
+    day, the days next to it, and at the ends of the span; zones whose standard offset is UTC+0 (local midnight is
+    23:00Z of the previous day in summer: Europe/London, Europe/Lisbon, Atlantic/Canary, Europe/Dublin with its negative
+    DST, ...) and a few others; frame constructor and from_series; daily and hourly readings"""
+    others = ["US/Pacific", "America/New_York", "Europe/Berlin", "Australia/Sydney", "Asia/Kolkata", "Pacific/Auckland",
+              "America/St_Johns", "UTC"]
+    cases = []
+    for k in range(n):
+        z = rng.choice(UTC0_DST_ZONES) if k % 3 else rng.choice(others)
+        tr = [t for t, _, _ in cz.transitions(z) if 2005 <= t.year <= 2036]
+        if tr:
+            T = rng.choice(tr)
+        else:
+            T = cz.dt.datetime(rng.randrange(2005, 2036), rng.choice([3, 10]), 28, tzinfo=cz.UTC)
+        d0 = T.astimezone(cz.zone(z)).date()
+        inp = rng.choice(["daily", "daily", "hourly"])
+        nd = rng.choice([10, 14, 21])
+        lead = rng.randrange(3, nd - 3)
+        unit = 1 if inp == "daily" else 24
+        m = nd * unit
+        obs_nan = []
+        u = rng.random()
+        if u < 0.55:      # a single day without meter value: the change day or one of its neighbours
+            p = lead + rng.choice([-1, 0, 0, 1, 1, 2])
+            obs_nan.append([p * unit, (p + 1) * unit])
+        elif u < 0.8:     # meter readings end (or begin) one or more full days before (after) the temperatures
+            q = rng.choice([1, 1, 2, 3])
+            obs_nan.append([m - q * unit, m] if rng.random() < 0.7 else [0, q * unit])
+        else:             # both
+            p = lead + rng.choice([0, 1])
+            obs_nan += [[p * unit, (p + 1) * unit], [m - unit, m]]
+        cases.append({"zone": z, "model": "daily" if rng.random() < 0.8 else "billing", "input": inp, "n": nd,
+                      "start_date": (d0 - cz.dt.timedelta(days=lead)).isoformat(), "start_hour": 0, "cut_end": 0,
+                      "with_obs": True, "electric": rng.random() < 0.5, "seed": rng.randrange(2**31),
+                      "ctor": rng.choice(["frame", "series"]), "edge": True,
+                      "temp_nan": [], "obs_nan": obs_nan, "gaps": [], "temp_inf": [], "obs_inf": []})
+    return cases
+
+
 # ------------------------------------------------------------------ oracles (the property text, literally)
 
 def hourly_signature(case, flags, what):
@@ -781,10 +831,29 @@ def oracle_hp(case, res, flags):
 def oracle_dp(case, res):
     call = ("Daily" if case["model"] == "daily" else "Billing") + "Model.predict"
     sig0 = {"call": call, "observed": "present" if res["has_obs"] else "absent"}
+    pre = []
+    if case["model"] == "daily" and "frame_days" in res:
+        # the daily data object must carry every local calendar day for which a temperature was supplied, once
+        # (the classes trim temperature-only days at the two ends of the span; what must not happen is a hole)
+        have = set(res["frame_days"])
+        lost = [d for d in res["supplied_days"] if have and min(have) < d < max(have) and d not in have]
+        dup = sorted({d for d in res["frame_days"] if res["frame_days"].count(d) > 1})
+        if lost:
+            pre.append(({"call": "DailyReportingData", "broken": "supplied day missing inside the frame", "input": case["input"]},
+                        "%d local days with a supplied temperature, between the first and the last day of the data object's frame, are not rows of it (first: %s) - no "
+                        "prediction can come back for them" % (len(lost), cz.dt.date.fromordinal(lost[0]).isoformat())))
+        # (readings that start in the middle of a day are outside this check: the classes stamp the partial first day apart)
+        sup = res["supplied_days"]
+        skipped = bool(sup) and any(cz.day_start(d, case["zone"]) is None for d in range(min(sup), max(sup) + 1))
+        if dup and not case.get("start_hour"):
+            pre.append(({"call": "DailyReportingData", "broken": "local day twice in the frame", "input": case["input"],
+                         "calendar_day_skipped_in_span": skipped},
+                        "local day %s is carried by %d rows of the data object's frame" % (
+                            cz.dt.date.fromordinal(dup[0]).isoformat(), res["frame_days"].count(dup[0]))))
     if "predict" in res:
         p = res["predict"]
-        return [(dict(sig0, raised=p["raised"], where=p["where"]), "predict raised %s in %s (%s)" % (p["raised"], p["where"], p["msg"]))]
-    fails = []
+        return pre + [(dict(sig0, raised=p["raised"], where=p["where"]), "predict raised %s in %s (%s)" % (p["raised"], p["where"], p["msg"]))]
+    fails = pre
     # one row per input timestamp (as multisets: the frame of a daily data object is itself out of order around a
     # skipped calendar day, Pacific/Apia 2011-12-30; chronological order is asked of the output, next check)
     if sorted(t for t, _ in res["out"]) != sorted(r[0] for r in res["rows"]):
@@ -1065,6 +1134,8 @@ def process_dp(run, st, cases, results):
                           expected="predict(data).index equals data.df.index, chronological; predicted finite iff temperature "
                                    "(and usage, when supplied) finite", generator="c06.gen_dp_cases")
         run.dist("daily_model", "%s/%s/%s" % (case["model"], case["input"], "observed" if res["has_obs"] else "no observed"))
+        if case.get("edge"):
+            run.dist("daily_edge_zone", case["zone"])
         if "rows" in res and [r[0] for r in res["rows"]] != sorted(r[0] for r in res["rows"]):
             run.dist("daily_data_class", "frame of the data object is not in chronological order (%s)" % case["zone"])
         if "predict" in res:
@@ -1207,7 +1278,7 @@ def main():
     MODEL_JSON = fit_hourly()
     run.log("hourly model fitted")
     hp_cases = witness_cases() + gen_hp_cases(rng, plan, run.n(4, 10**6), not run.quick())
-    dp_cases = gen_dp_cases(rng, plan, run.n(220, 2000))
+    dp_cases = gen_dp_cases(rng, plan, run.n(200, 2000)) + gen_dp_edge_cases(rng, run.n(90, 1500))
     jobs = [(z, tr, rng.randrange(2**31), run.quick()) for z, tr in plan if tr]
     with get_context("fork").Pool(int(os.environ.get("VERIF_PROCS", "14"))) as pool:
         r_win = pool.map_async(run_windows, jobs, chunksize=1)
